@@ -67,6 +67,8 @@ class ModelDriver:
                     cls = getattr(self.ctx.ns, act['T'])
                     obj = cls(name=act['reqName']) if act['reqName'] != 'NONE' else cls()
                     self.bind(act['h'], obj)
+                    if act['reqName'] != 'NONE' and act['h'] % 2 == 1:
+                        self.previous_life(obj, act['T'])
                 kw = {}
                 if act['reqId'] != NOID:
                     kw['asset_id'] = act['reqId']
@@ -118,6 +120,29 @@ class ModelDriver:
                 raise
             return 'exc'
         return 'ok'
+
+    def previous_life(self, obj, T):
+        """The object handed to add_asset may have had a life before: here it is (still) an asset of ANOTHER model and
+        linked there. Like an object that comes back (ModelSM: IsBackAsset) it brings its type, name and values, and
+        nothing else: no associations, no entry points."""
+        try:
+            other = self.ctx.new_model('elsewhere')
+            other.add_asset(obj)
+            for i, d in enumerate(self.L['assocs']):
+                for mine, theirs, tt in ((d['lf'], d['rf'], d['rt']), (d['rf'], d['lf'], d['lt'])):
+                    try:
+                        partner = getattr(self.ctx.ns, tt)(name='partner')
+                        other.add_asset(partner)
+                        a = self.ctx.assoc_class(i + 1)()
+                        setattr(a, mine, [obj])
+                        setattr(a, theirs, [partner])
+                        other.add_association(a)
+                        self.other_models = getattr(self, 'other_models', []) + [other]
+                        return
+                    except Exception:
+                        continue
+        except Exception:
+            pass
 
     # --------------------------------------------------------------- projection
     def project(self):
